@@ -10,6 +10,7 @@ open TLX.Lemmas.KeySchedule TLX.QuicPipeline TLX.Props.C02Capstone TLX.Spec.NssK
 open TLX.Quic TLX.Cipher TLX.Quic.Session TLX.Lemmas.QuicSession
 open TLX.Props.C02Session TLX.Spec.QuicConnection TLX.Props.C02Pipeline TLX.Quic.CryptoStream TLX.Lemmas.CryptoStream
 open TLX.Spec.TlsHandshakeFraming TLX.Spec.TlsHello TLX.Lemmas.TlsHello
+open TLX.Spec.QuicSender TLX.Spec.QuicFrames TLX.Spec.QuicPackets
 
 /-! ### the suite: from the IANA denotation to the tool's table -/
 
@@ -36,6 +37,18 @@ theorem selectSuite_rfc (cs : Bytes) (haccept : Quic.Session.selectSuite cs ≠ 
             decide +kernel
           rw [this] at h; cases h; exact ⟨by decide, rfl, by decide⟩
         · exact absurd rfl haccept
+
+theorem selectSuite_tls13 (cs : Bytes) (h13 : cs ∈ tls13Codes) (sp : SuiteSpec) (sel : Quic.Session.SuiteSel)
+    (h : quicSuite (Bytes.beNat cs) = some (sp, sel)) :
+    Quic.Session.selectSuite cs = some sel ∧ sp.keyLen = sel.keyLen ∧ sel.keyLen ≤ 32 := by
+  simp only [tls13Codes, List.mem_cons, List.not_mem_nil, or_false] at h13
+  rcases h13 with rfl | rfl | rfl | rfl | rfl
+  · exact selectSuite_rfc _ (by decide) sp sel h
+  · exact selectSuite_rfc _ (by decide) sp sel h
+  · exact selectSuite_rfc _ (by decide) sp sel h
+  · exact selectSuite_rfc _ (by decide) sp sel h
+  · have : Bytes.beNat [0x13, 0x05] = 0x1305 := by decide
+    rw [this, quicSuite_ccm8] at h; cases h
 
 /-- the four QUIC v1 suites, by code point: each is accepted and has a denotation -/
 theorem quicSuite_exists (cs : Bytes) (haccept : Quic.Session.selectSuite cs ≠ none) :
@@ -545,5 +558,252 @@ theorem parser_facts (h : ConfHs) (hok : h.Ok) :
     rw [hm2]; exact q1
 
 end Parser
+
+/-! ### the senders' own bookkeeping, and what the observer's is along a conformant handshake -/
+section Sender
+variable (maskFn : Dissect.MaskFn) (H : Crypto.Prims) (Pc : Cipher.Prims)
+
+/-- what the two endpoints know themselves after the packets so far: has the server sent CRYPTO data (its ServerHello)?,
+    the largest packet numbers sent per space and direction, the connection IDs in use -/
+structure RTrk where
+  shSent : Bool
+  tc : PnTab
+  ts : PnTab
+  cc : List Bytes
+  sc : List Bytes
+
+def RTrk.step (r : RTrk) (x : SPkt) : RTrk :=
+  { shSent := r.shSent || (x.srv && !(cryptoIns x).isEmpty),
+    tc := if x.srv then r.tc else bump r.tc (spaceOf x.level) x.pn,
+    ts := if x.srv then bump r.ts (spaceOf x.level) x.pn else r.ts,
+    cc := (learn r.cc r.sc x).1, sc := (learn r.cc r.sc x).2 }
+
+def rtrk0 : RTrk := ⟨false, {}, {}, [], []⟩
+
+def RTrk.run (r : RTrk) (qs : List PkH) : RTrk := qs.foldl (fun r q => r.step q.x) r
+def RTrk.runDgs (r : RTrk) (ds : List DgH) : RTrk := ds.foldl (fun r d => r.run d.pkts) r
+
+/-- `HsPkOk` in the senders' terms: Handshake packets only once the ServerHello is out (RFC 9001 §4.1.4: the Handshake keys
+    come from the ServerHello), header protection by the SUITE's algorithm (RFC 9001 §5.4.3 / §5.4.4), packet numbers
+    relative to the sender's own largest one -/
+structure HsPkR (L : SealLaws Pc) (dcid0 : Bytes) (sel : SuiteSel) (sh ch : Bytes) (r : RTrk) (q : PkH) : Prop where
+  shape : LongShape q.x
+  keys : q.x.level = .handshake → r.shSent = true
+  late : r.shSent = true → ¬ (q.x.srv = false ∧ q.x.level = .initial) ∨ cryptoIns q.x = []
+  frames : ∀ f ∈ q.x.frames, hsFrameQ f = true
+  wf : WellFormedSeq q.x.frames
+  pn : PnLenOk ((if q.x.srv then r.ts else r.tc).get (spaceOf q.x.level)) q.x.pn q.x.pnLen
+  mask : maskFn (senderChacha (ltypeOf q.x.level) (hpChacha sel)) (lvlHp H dcid0 sel sh ch q.x.level q.x.srv)
+    (longOf q.x (protectedPayload L.aeadSeal (lvlDec H dcid0 sel sh ch q.x.level).alg
+      (lvlKey H dcid0 sel sh ch q.x.level q.x.srv) q.x)).sample = some q.mask
+  mask5 : 5 ≤ q.mask.length
+
+def HsPksR (L : SealLaws Pc) (dcid0 : Bytes) (sel : SuiteSel) (sh ch : Bytes) : RTrk → List PkH → Prop
+  | _, [] => True
+  | r, q :: qs => HsPkR maskFn H Pc L dcid0 sel sh ch r q ∧ HsPksR L dcid0 sel sh ch (r.step q.x) qs
+
+def HsDgR (L : SealLaws Pc) (dcid0 : Bytes) (sel : SuiteSel) (sh ch : Bytes) (r : RTrk) (d : DgH) : Prop :=
+  (∀ q ∈ d.pkts, q.x.srv = d.srv ∧ q.x.ts = d.ts) ∧ DcidOk r.cc r.sc d.srv (dgDcid d) ∧
+  HsPksR maskFn H Pc L dcid0 sel sh ch r d.pkts
+
+def HsDgsR (L : SealLaws Pc) (dcid0 : Bytes) (sel : SuiteSel) (sh ch : Bytes) : RTrk → List DgH → Prop
+  | _, [] => True
+  | r, d :: ds => HsDgR maskFn H Pc L dcid0 sel sh ch r d ∧ HsDgsR L dcid0 sel sh ch (r.run d.pkts) ds
+
+/-- the observer's bookkeeping `t` and the senders' `r` after the CRYPTO inputs `a` -/
+structure Sync (a : List CryptoIn) (t : Trk) (r : RTrk) : Prop where
+  core : t.core = pfold {} a
+  keyed : t.keyed = r.shSent
+  sent : r.shSent = a.any (·.isServer)
+  tc : t.tc = r.tc
+  ts : t.ts = r.ts
+  cc : t.cc = r.cc
+  sc : t.sc = r.sc
+
+theorem sync0 : Sync [] trk0 rtrk0 := ⟨rfl, rfl, rfl, rfl, rfl, rfl, rfl⟩
+
+theorem mem_cryptoIns (x : SPkt) (c : CryptoIn) (h : c ∈ cryptoIns x) : c.isServer = x.srv ∧ c.ptype = x.level.ptype := by
+  unfold cryptoIns at h
+  obtain ⟨f, _, hf⟩ := List.mem_filterMap.mp h
+  split at hf
+  · cases hf; exact ⟨rfl, rfl⟩
+  · cases hf
+
+theorem chIns_client (h : ConfHs) : ∀ c ∈ chIns h, c.isServer = false ∧ c.ptype = .initial := by
+  intro c hc
+  obtain ⟨w, _, rfl⟩ := List.mem_map.mp hc
+  exact ⟨rfl, rfl⟩
+
+/-- a prefix of the handshake's CRYPTO inputs: within the ClientHello, or past the ServerHello -/
+theorem prefix_cases (h : ConfHs) (a : List CryptoIn) (ha : a <+: h.ins) :
+    (a <+: chIns h ∧ a.any (·.isServer) = false) ∨ (∃ b, a = chIns h ++ shIn h :: b ∧ b <+: tailIns h ∧ a.any (·.isServer) = true) := by
+  rw [ins_split] at ha
+  rcases List.prefix_or_prefix_of_prefix ha (List.prefix_append (chIns h) _) with h1 | h1
+  · left
+    refine ⟨h1, ?_⟩
+    rw [List.any_eq_false]
+    intro c hc
+    simp [(chIns_client h c (h1.subset hc)).1]
+  · obtain ⟨a', rfl⟩ := h1
+    have ha' : a' <+: shIn h :: tailIns h := (List.prefix_append_right_inj _).mp ha
+    cases a' with
+    | nil =>
+      left
+      refine ⟨by simp, ?_⟩
+      rw [List.any_eq_false]
+      intro c hc
+      simp only [List.append_nil] at hc
+      simp [(chIns_client h c hc).1]
+    | cons c b =>
+      obtain ⟨rfl, hb⟩ := List.cons_prefix_cons.mp ha'
+      right
+      exact ⟨b, rfl, hb, by simp [shIn, inOf]⟩
+
+theorem chacha_of_sel (cs : Bytes) (sel : SuiteSel) (h : selectSuite cs = some sel) :
+    (cs == [0x13, 0x03]) = hpChacha sel := by
+  unfold selectSuite at h
+  repeat' split at h
+  all_goals first
+    | (cases h; rename_i e; subst e; decide)
+    | (cases h)
+
+theorem level_ptype_initial (l : Level) (h : l.ptype = .initial) : l = .initial := by
+  cases l <;> simp [Level.ptype] at h ⊢
+
+/-- the observer's `keyed` follows the senders' `shSent` -/
+theorem keyed_sync (h : ConfHs) (hok : h.Ok) (a rest : List CryptoIn) (x : SPkt)
+    (hins : h.ins = a ++ cryptoIns x ++ rest) :
+    (a.any (·.isServer) || (pfired (pfold {} a) (cryptoIns x) && !(!x.srv && decide (x.level = .initial)))) =
+      (a.any (·.isServer) || (x.srv && !(cryptoIns x).isEmpty)) := by
+  have hpre : a <+: h.ins := ⟨cryptoIns x ++ rest, by rw [hins, List.append_assoc]⟩
+  rcases prefix_cases h a hpre with ⟨ha, hany⟩ | ⟨b, _, _, hany⟩
+  · rw [hany, Bool.false_or, Bool.false_or]
+    cases hseg : cryptoIns x with
+    | nil => simp [pfired]
+    | cons c seg =>
+      obtain ⟨hc1, hc2⟩ := mem_cryptoIns x c (by rw [hseg]; exact List.mem_cons_self ..)
+      -- where `c` stands in the handshake's inputs
+      obtain ⟨a'', ha''⟩ := ha
+      have hsplit : a'' ++ shIn h :: tailIns h = c :: (seg ++ rest) := by
+        have := hins
+        rw [ins_split, ← ha'', hseg, List.append_assoc, List.append_assoc] at this
+        simpa using List.append_cancel_left this
+      cases a'' with
+      | cons c' a3 =>
+        simp only [List.cons_append, List.cons.injEq] at hsplit
+        obtain ⟨rfl, _⟩ := hsplit
+        obtain ⟨k1, k2⟩ := chIns_client h c' (by rw [← ha'']; simp)
+        -- a client Initial packet
+        have hs : x.srv = false := by rw [← hc1]; exact k1
+        have hl : x.level = .initial := level_ptype_initial _ (by rw [← hc2]; exact k2)
+        simp [hs, hl]
+      | nil =>
+        simp only [List.nil_append, List.cons.injEq] at hsplit
+        obtain ⟨rfl, _⟩ := hsplit
+        have hs : x.srv = true := by rw [← hc1]; rfl
+        have haeq : a = chIns h := by simpa using ha''
+        have hfire := (parser_facts h hok).1
+        simp only [pfired, Bool.or_false] at hfire
+        simp [hs, pfired, haeq, hfire]
+  · rw [hany]; simp
+
+/-- … and past the ServerHello its `ciphersuite` decides for the suite's header-protection algorithm -/
+theorem chacha_sync (h : ConfHs) (hok : h.Ok) (sel : SuiteSel) (hsel : selectSuite h.sh.cipherSuite = some sel)
+    (a : List CryptoIn) (ha : a <+: h.ins) (hany : a.any (·.isServer) = true) :
+    chachaOf (pfold {} a) = hpChacha sel := by
+  rcases prefix_cases h a ha with ⟨_, hn⟩ | ⟨b, rfl, hb, _⟩
+  · rw [hn] at hany; cases hany
+  · unfold chachaOf
+    rw [(parser_facts h hok).2 b hb, ← chacha_of_sel _ _ hsel]
+    simp
+
+theorem sync_step (h : ConfHs) (hok : h.Ok) (a rest : List CryptoIn) (x : SPkt)
+    (hins : h.ins = a ++ cryptoIns x ++ rest) (t : Trk) (r : RTrk) (hs : Sync a t r) :
+    Sync (a ++ cryptoIns x) (t.step x) (r.step x) := by
+  obtain ⟨s1, s2, s3, s4, s5, s6, s7⟩ := hs
+  have hsent : (r.step x).shSent = (a ++ cryptoIns x).any (·.isServer) := by
+    simp only [RTrk.step, s3, List.any_append]
+    congr 1
+    cases hseg : cryptoIns x with
+    | nil => simp
+    | cons c seg =>
+      have hall : ∀ c' ∈ c :: seg, c'.isServer = x.srv := fun c' hc' => (mem_cryptoIns x c' (by rw [hseg]; exact hc')).1
+      cases hsv : x.srv
+      · rw [Bool.false_and]; symm; rw [List.any_eq_false]; intro c' hc'; simp [hall c' hc', hsv]
+      · have := hall c (List.mem_cons_self ..)
+        simp [this, hsv]
+  refine ⟨?_, ?_, hsent, ?_, ?_, ?_, ?_⟩
+  · simp only [Trk.step, s1, pfold_app]
+  · rw [hsent]
+    simp only [Trk.step, s1, s2, s3]
+    rw [keyed_sync h hok a rest x hins, List.any_append]
+    congr 1
+    cases hseg : cryptoIns x with
+    | nil => simp
+    | cons c seg =>
+      have hall : ∀ c' ∈ c :: seg, c'.isServer = x.srv := fun c' hc' => (mem_cryptoIns x c' (by rw [hseg]; exact hc')).1
+      cases hsv : x.srv
+      · rw [Bool.false_and]; symm; rw [List.any_eq_false]; intro c' hc'; simp [hall c' hc', hsv]
+      · have := hall c (List.mem_cons_self ..)
+        simp [this, hsv]
+  · simp only [Trk.step, RTrk.step, s4]
+  · simp only [Trk.step, RTrk.step, s5]
+  · simp only [Trk.step, RTrk.step, s6, s7]
+  · simp only [Trk.step, RTrk.step, s6, s7]
+
+variable {maskFn H Pc}
+
+theorem pkOk_of_rfc (h : ConfHs) (hok : h.Ok) (L : SealLaws Pc) (dcid0 : Bytes) (sel : SuiteSel) (sh ch : Bytes)
+    (hsel : selectSuite h.sh.cipherSuite = some sel) (a : List CryptoIn) (ha : a <+: h.ins) (t : Trk) (r : RTrk)
+    (hs : Sync a t r) (q : PkH) (hq : HsPkR maskFn H Pc L dcid0 sel sh ch r q) :
+    HsPkOk maskFn H Pc L dcid0 sel sh ch t q := by
+  obtain ⟨q1, q2, q3, q4, q5, q6, q7, q8⟩ := hq
+  refine ⟨q1, fun hl => by rw [hs.keyed]; exact q2 hl, fun hk => q3 (by rw [← hs.keyed]; exact hk), q4, q5,
+    by rw [hs.tc, hs.ts]; exact q6, ?_, q8⟩
+  rcases q1.level with hl | hl
+  · rw [hl] at q7 ⊢; exact q7
+  · have hk := q2 hl
+    rw [hs.sent] at hk
+    rw [hs.core, chacha_sync h hok sel hsel a ha hk]
+    exact q7
+
+theorem pks_of_rfc (h : ConfHs) (hok : h.Ok) (L : SealLaws Pc) (dcid0 : Bytes) (sel : SuiteSel) (sh ch : Bytes)
+    (hsel : selectSuite h.sh.cipherSuite = some sel) (qs : List PkH) (a rest : List CryptoIn)
+    (hins : h.ins = a ++ insOf qs ++ rest) (t : Trk) (r : RTrk) (hs : Sync a t r)
+    (hq : HsPksR maskFn H Pc L dcid0 sel sh ch r qs) :
+    HsPks maskFn H Pc L dcid0 sel sh ch t qs ∧ Sync (a ++ insOf qs) (t.run qs) (r.run qs) := by
+  induction qs generalizing a t r with
+  | nil => exact ⟨trivial, by simpa [insOf, Trk.run, RTrk.run] using hs⟩
+  | cons q qs ih =>
+    obtain ⟨hq1, hq2⟩ := hq
+    have hins' : h.ins = a ++ cryptoIns q.x ++ (insOf qs ++ rest) := by
+      rw [hins]; simp [insOf, List.flatMap_cons, List.append_assoc]
+    have hpre : a <+: h.ins := ⟨cryptoIns q.x ++ (insOf qs ++ rest), by rw [hins', List.append_assoc]⟩
+    have hstep := sync_step h hok a _ q.x hins' t r hs
+    obtain ⟨i1, i2⟩ := ih (a ++ cryptoIns q.x) (by rw [hins', List.append_assoc, List.append_assoc, List.append_assoc]) (t.step q.x) (r.step q.x) hstep hq2
+    refine ⟨⟨pkOk_of_rfc h hok L dcid0 sel sh ch hsel a hpre t r hs q hq1, i1⟩, ?_⟩
+    have : a ++ insOf (q :: qs) = a ++ cryptoIns q.x ++ insOf qs := by simp [insOf, List.flatMap_cons, List.append_assoc]
+    rw [this]
+    exact i2
+
+theorem dgs_of_rfc (h : ConfHs) (hok : h.Ok) (L : SealLaws Pc) (dcid0 : Bytes) (sel : SuiteSel) (sh ch : Bytes)
+    (hsel : selectSuite h.sh.cipherSuite = some sel) (ds : List DgH) (a rest : List CryptoIn)
+    (hins : h.ins = a ++ allIns ds ++ rest) (t : Trk) (r : RTrk) (hs : Sync a t r)
+    (hd : HsDgsR maskFn H Pc L dcid0 sel sh ch r ds) :
+    HsDgs maskFn H Pc L dcid0 sel sh ch t ds ∧ Sync (a ++ allIns ds) (t.runDgs ds) (r.runDgs ds) := by
+  induction ds generalizing a t r with
+  | nil => exact ⟨trivial, by simpa [allIns, Trk.runDgs, RTrk.runDgs] using hs⟩
+  | cons d ds ih =>
+    obtain ⟨⟨d1, d2, d3⟩, hd2⟩ := hd
+    have hins' : h.ins = a ++ insOf d.pkts ++ (allIns ds ++ rest) := by
+      rw [hins]; simp [allIns, List.flatMap_cons, List.append_assoc]
+    obtain ⟨p1, p2⟩ := pks_of_rfc h hok L dcid0 sel sh ch hsel d.pkts a _ hins' t r hs d3
+    obtain ⟨i1, i2⟩ := ih (a ++ insOf d.pkts) (by rw [hins', List.append_assoc, List.append_assoc, List.append_assoc]) (t.run d.pkts) (r.run d.pkts) p2 hd2
+    refine ⟨⟨⟨d1, by rw [hs.cc, hs.sc]; exact d2, p1⟩, i1⟩, ?_⟩
+    have : a ++ allIns (d :: ds) = a ++ insOf d.pkts ++ allIns ds := by simp [allIns, List.flatMap_cons, List.append_assoc]
+    rw [this]
+    exact i2
+
+end Sender
 
 end TLX.Props.C02Rfc
